@@ -960,7 +960,7 @@ Module WitnessFixed.
 Definition ge : geom :=
   mkGeom 2 (2, 2, 2, -1, 0, 0) 2 8 [(3, 2, 0); (5, 6, 0)] [O; O] [] 6754801 160000 BoxNew.
 Example found : In (canon Witness.cl) (enumerate ge 2) /\ nmaxv ge = (9, 9, 0) /\ nmaxv Witness.ge = (7, 7, 0).
-Proof. split; [apply cl_mem_In; vm_compute; reflexivity | split; vm_compute; reflexivity]. Qed.
+Proof. split; [apply (proj1 (cl_mem_In _ _)); vm_compute; reflexivity | split; vm_compute; reflexivity]. Qed.
 End WitnessFixed.
 
 (* non-vacuity: square lattice, one atom, cutoff 3/2: the box is certified, there are two pair
